@@ -152,4 +152,511 @@ theorem segFree_spec {s : SegSt} (off : Nat) (hi : SegInv s) :
       rw [← hfil]
       exact hi.2.filter _
 
+/-! ### World level -/
+
+def SInv (segs : Segs) : Prop := ∀ k, k < segs.n → SegInv (segs.get k)
+
+/-- pointer `(k, off)` addresses a live slot holding `b` -/
+def Live (segs : Segs) (k off : Nat) (b : B) : Prop :=
+  k < segs.n ∧ lookup off (segs.get k).cont = some b
+
+/-- every live slot of every segment is accounted for by a pointer in `owned` -/
+def Acc (segs : Segs) (owned : List (Nat × Nat)) : Prop :=
+  ∀ k, k < segs.n → ∀ e ∈ (segs.get k).cont, (k, e.1) ∈ owned
+
+def wirePtr : Wire → List (Nat × Nat)
+  | .ptr k off _ => [(k, off)]
+  | _ => []
+
+/-- the wire is what a well-behaved client produced for batch `b` when the server resolves
+pointers through `att` -/
+def WireOK (segs : Segs) (att : Option Nat) (b : B) : Wire → Prop
+  | .inline b' => b' = b
+  | .ptr k off len => att = some k ∧ len = b.len ∧ Live segs k off b
+  | .bad => False
+
+theorem acc_mono {segs : Segs} {o1 o2 : List (Nat × Nat)} (h : Acc segs o1) (hsub : ∀ q ∈ o1, q ∈ o2) :
+    Acc segs o2 := fun k hk e he => hsub _ (h k hk e he)
+
+@[simp] theorem updateAt_n (segs : Segs) (k : Nat) (f : SegSt → SegSt) : (updateAt segs k f).n = segs.n := rfl
+theorem updateAt_get_self (segs : Segs) (k : Nat) (f : SegSt → SegSt) :
+    (updateAt segs k f).get k = f (segs.get k) := by simp [updateAt]
+theorem updateAt_get_ne (segs : Segs) {k j : Nat} (f : SegSt → SegSt) (h : j ≠ k) :
+    (updateAt segs k f).get j = segs.get j := by simp [updateAt, h]
+
+theorem at?_some {segs : Segs} {k : Nat} {s : SegSt} (h : segs.at? k = some s) : k < segs.n ∧ s = segs.get k := by
+  unfold Segs.at? at h
+  split at h
+  · cases h; exact ⟨‹_›, rfl⟩
+  · cases h
+
+/-- **writeTo_spec**: writing a batch into a segment either falls back to the batch itself and
+changes nothing, or yields a pointer to a fresh live slot holding the batch; all other live slots
+stay as they are. -/
+theorem writeTo_spec (segs : Segs) (k : Nat) (b : B) (owned : List (Nat × Nat))
+    (hI : SInv segs) (hA : Acc segs owned) :
+    (writeTo segs k b = (segs, .inline b)) ∨
+    (∃ off segs', writeTo segs k b = (segs', .ptr k off b.len) ∧ segs'.n = segs.n ∧ SInv segs' ∧
+      Live segs' k off b ∧ (∀ b', ¬ Live segs k off b') ∧
+      (∀ k' o b', Live segs k' o b' → Live segs' k' o b') ∧ Acc segs' ((k, off) :: owned)) := by
+  unfold writeTo
+  cases hat : segs.at? k with
+  | none => exact Or.inl rfl
+  | some s =>
+    obtain ⟨hk, hs⟩ := at?_some hat
+    subst hs
+    cases hw : segWrite (segs.get k) b with
+    | none => exact Or.inl (by simp only [hw])
+    | some r =>
+      obtain ⟨off, s'⟩ := r
+      obtain ⟨hi', hc, hfresh, _⟩ := segWrite_spec (hI k hk) hw
+      refine Or.inr ⟨off, updateAt segs k (fun _ => s'), by simp only [hw], rfl, ?_, ?_, ?_, ?_, ?_⟩
+      · intro j hj
+        by_cases hjk : j = k
+        · subst hjk; rw [updateAt_get_self]; exact hi'
+        · rw [updateAt_get_ne _ _ hjk]; exact hI j hj
+      · refine ⟨hk, ?_⟩
+        rw [updateAt_get_self, hc]; simp [lookup]
+      · intro b' hl
+        rw [hl.2] at hfresh; cases hfresh
+      · intro k' o b' hl
+        refine ⟨hl.1, ?_⟩
+        by_cases hjk : k' = k
+        · subst hjk
+          rw [updateAt_get_self, hc]
+          simp only [lookup]
+          rw [if_neg]
+          · exact hl.2
+          · intro h; subst h; rw [hl.2] at hfresh; cases hfresh
+        · rw [updateAt_get_ne _ _ hjk]; exact hl.2
+      · intro j hj e he
+        by_cases hjk : j = k
+        · subst hjk
+          rw [updateAt_get_self, hc] at he
+          simp only [List.mem_cons] at he ⊢
+          rcases he with he | he
+          · subst he; exact Or.inl rfl
+          · exact Or.inr (hA j hk e he)
+        · rw [updateAt_get_ne _ _ hjk] at he
+          exact List.mem_cons_of_mem _ (hA j hj e he)
+
+/-- **freeAt_spec**: freeing a pointer keeps the invariants, leaves every other pointer live, and
+the accounting may drop that pointer. -/
+theorem freeAt_spec (segs : Segs) (k off : Nat) (hI : SInv segs) :
+    SInv (updateAt segs k (segFree · off)) ∧
+    (∀ k' o b', Live segs k' o b' → (k', o) ≠ (k, off) → Live (updateAt segs k (segFree · off)) k' o b') ∧
+    (∀ owned owned', Acc segs owned → (∀ q ∈ owned, q ≠ (k, off) → q ∈ owned') →
+      Acc (updateAt segs k (segFree · off)) owned') := by
+  refine ⟨?_, ?_, ?_⟩
+  · intro j hj
+    by_cases hjk : j = k
+    · subst hjk; rw [updateAt_get_self]; exact (segFree_spec off (hI j hj)).1
+    · rw [updateAt_get_ne _ _ hjk]; exact hI j hj
+  · intro k' o b' hl hne
+    refine ⟨hl.1, ?_⟩
+    by_cases hjk : k' = k
+    · subst hjk
+      rw [updateAt_get_self, (segFree_spec off (hI k' hl.1)).2.1, lookup_filter_ne]
+      · exact hl.2
+      · intro h; subst h; exact hne rfl
+    · rw [updateAt_get_ne _ _ hjk]; exact hl.2
+  · intro owned owned' hA hsub j hj e he
+    by_cases hjk : j = k
+    · subst hjk
+      rw [updateAt_get_self, (segFree_spec off (hI j hj)).2.1] at he
+      simp only [List.mem_filter, bne_iff_ne, ne_eq] at he
+      apply hsub _ (hA j hj e he.1)
+      intro h; cases h; exact he.2 rfl
+    · rw [updateAt_get_ne _ _ hjk] at he
+      apply hsub _ (hA j hj e he)
+      intro h; cases h; exact hjk rfl
+
+
+/-- **clientSend_spec**: what a well-behaved client puts on the wire. -/
+theorem clientSend_spec (segs : Segs) (att : Option Nat) (b : B) (via : Via) (owned : List (Nat × Nat))
+    (hv : via.wellBehaved = true) (hI : SInv segs) (hA : Acc segs owned) :
+    ∃ segs' wire, clientSend segs att b via = (segs', wire) ∧ segs'.n = segs.n ∧ SInv segs' ∧
+      WireOK segs' att b wire ∧ (∀ q ∈ wirePtr wire, ∀ b', ¬ Live segs q.1 q.2 b') ∧
+      (∀ k' o b', Live segs k' o b' → Live segs' k' o b') ∧ Acc segs' (wirePtr wire ++ owned) := by
+  have inl : ∃ segs' wire, (segs, Wire.inline b) = (segs', wire) ∧ segs'.n = segs.n ∧ SInv segs' ∧
+      WireOK segs' att b wire ∧ (∀ q ∈ wirePtr wire, ∀ b', ¬ Live segs q.1 q.2 b') ∧
+      (∀ k' o b', Live segs k' o b' → Live segs' k' o b') ∧ Acc segs' (wirePtr wire ++ owned) :=
+    ⟨segs, .inline b, rfl, rfl, hI, rfl, by simp [wirePtr], fun _ _ _ h => h, by simpa [wirePtr] using hA⟩
+  cases via with
+  | inline => exact inl
+  | raw => simp [Via.wellBehaved] at hv
+  | force k => simp [Via.wellBehaved] at hv
+  | shm k =>
+    simp only [clientSend]
+    by_cases hatt : att = some k
+    · rw [if_pos hatt]
+      rcases writeTo_spec segs k b owned hI hA with h | ⟨off, segs', h, hn, hI', hl, hf, hp, hA'⟩
+      · rw [h]; exact inl
+      · rw [h]
+        refine ⟨segs', _, rfl, hn, hI', ⟨hatt, rfl, hl⟩, ?_, hp, by simpa [wirePtr] using hA'⟩
+        intro q hq b'
+        simp [wirePtr] at hq; subst hq; exact hf b'
+    · rw [if_neg hatt]; exact inl
+
+/-- **serverTake_ok**: the server resolves everything a well-behaved client sends, gets the
+client's batch back, and the consumed slot is free again. -/
+theorem serverTake_ok (segs : Segs) (att : Option Nat) (b : B) (wire : Wire) (owned : List (Nat × Nat))
+    (hW : WireOK segs att b wire) (hI : SInv segs) (hA : Acc segs (wirePtr wire ++ owned)) :
+    ∃ segs', serverTake segs att wire = (segs', some b) ∧ segs'.n = segs.n ∧ SInv segs' ∧ Acc segs' owned ∧
+      (∀ k' o b', Live segs k' o b' → (k', o) ∉ wirePtr wire → Live segs' k' o b') := by
+  cases wire with
+  | inline b' =>
+    simp only [WireOK] at hW; subst hW
+    exact ⟨segs, rfl, rfl, hI, by simpa [wirePtr] using hA, fun _ _ _ h _ => h⟩
+  | bad => exact hW.elim
+  | ptr k off len =>
+    obtain ⟨hatt, hlen, hl⟩ := hW
+    subst hatt; subst hlen
+    have hres : resolveWire segs k (.ptr k off b.len) = some (b, off) := by
+      simp only [resolveWire, if_true]
+      have : segs.at? k = some (segs.get k) := by simp [Segs.at?, hl.1]
+      rw [this]
+      simp [segRead, hl.2]
+    simp only [serverTake, hres]
+    obtain ⟨f1, f2, f3⟩ := freeAt_spec segs k off hI
+    refine ⟨_, rfl, rfl, f1, ?_, ?_⟩
+    · apply f3 _ _ hA
+      intro q hq hne
+      simp [wirePtr] at hq
+      rcases hq with hq | hq
+      · exact absurd hq hne
+      · exact hq
+    · intro k' o b' h hn
+      apply f2 k' o b' h
+      intro heq; apply hn; simp [wirePtr, heq]
+
+/-- **maybeWrite_spec**: a result is either sent as it is or as a pointer to a fresh live slot
+holding it. -/
+theorem maybeWrite_spec (segs : Segs) (shm : Option Nat) (b : B) (owned : List (Nat × Nat))
+    (hI : SInv segs) (hA : Acc segs owned) :
+    ∃ segs' wire, maybeWrite segs shm b = (segs', wire) ∧ segs'.n = segs.n ∧ SInv segs' ∧
+      WireOK segs' shm b wire ∧ (∀ k' o b', Live segs k' o b' → Live segs' k' o b') ∧
+      Acc segs' (wirePtr wire ++ owned) := by
+  have inl : ∃ segs' wire, (segs, Wire.inline b) = (segs', wire) ∧ segs'.n = segs.n ∧ SInv segs' ∧
+      WireOK segs' shm b wire ∧ (∀ k' o b', Live segs k' o b' → Live segs' k' o b') ∧
+      Acc segs' (wirePtr wire ++ owned) :=
+    ⟨segs, .inline b, rfl, rfl, hI, rfl, fun _ _ _ h => h, by simpa [wirePtr] using hA⟩
+  unfold maybeWrite
+  cases shm with
+  | none => exact inl
+  | some k =>
+    simp only []
+    split
+    · exact inl
+    · rcases writeTo_spec segs k b owned hI hA with h | ⟨off, segs', h, hn, hI', hl, _, hp, hA'⟩
+      · rw [h]; exact inl
+      · rw [h]
+        exact ⟨segs', _, rfl, hn, hI', ⟨rfl, rfl, hl⟩, hp, by simpa [wirePtr] using hA'⟩
+
+/-- **clientRecv_ok**: the client decodes exactly the batch the server produced, and the slot is
+either released or accounted for as held. -/
+theorem clientRecv_ok (segs : Segs) (held : Held) (hold : Bool) (shm : Option Nat) (b : B) (wire : Wire)
+    (owned : List (Nat × Nat)) (hW : WireOK segs shm b wire) (hI : SInv segs)
+    (hA : Acc segs (wirePtr wire ++ (held ++ owned))) :
+    ∃ segs' held' viaShm, clientRecv segs held hold wire = (segs', held', .ok b.id viaShm) ∧
+      segs'.n = segs.n ∧ SInv segs' ∧ Acc segs' (held' ++ owned) ∧
+      (∀ k' o b', Live segs k' o b' → (k', o) ∉ wirePtr wire → Live segs' k' o b') := by
+  cases wire with
+  | inline b' =>
+    simp only [WireOK] at hW; subst hW
+    exact ⟨segs, held, false, rfl, rfl, hI, by simpa [wirePtr] using hA, fun _ _ _ h _ => h⟩
+  | bad => exact hW.elim
+  | ptr k off len =>
+    obtain ⟨_, hlen, hl⟩ := hW
+    subst hlen
+    have hat : segs.at? k = some (segs.get k) := by simp [Segs.at?, hl.1]
+    have hrd : segRead (segs.get k) off b.len = some b := by simp [segRead, hl.2]
+    simp only [clientRecv, hat, hrd]
+    cases hold with
+    | true =>
+      simp only [if_true]
+      refine ⟨segs, (k, off) :: held, true, rfl, rfl, hI, ?_, fun _ _ _ h _ => h⟩
+      apply acc_mono hA
+      intro q hq; simpa [wirePtr] using hq
+    | false =>
+      simp only [Bool.false_eq_true, if_false]
+      obtain ⟨f1, f2, f3⟩ := freeAt_spec segs k off hI
+      refine ⟨_, held, true, rfl, rfl, f1, ?_, ?_⟩
+      · apply f3 _ _ hA
+        intro q hq hne
+        simp [wirePtr] at hq
+        rcases hq with hq | hq
+        · exact absurd hq hne
+        · simpa using hq
+      · intro k' o b' h hn
+        apply f2 k' o b' h
+        intro heq; apply hn; simp [wirePtr, heq]
+
+
+/-! ### Whole calls -/
+
+/-- What the scripted handlers answer, turn by turn, when nothing but the pipe is involved. -/
+def plainTurns : List Turn → List Item
+  | [] => []
+  | t :: rest =>
+    match t.outcome with
+    | .error k => [.err k]
+    | .finish => [.done]
+    | .result out => .ok out.id false :: plainTurns rest
+
+def plainItems : Call → List Item
+  | .unary _ _ _ outcome _ =>
+    match outcome with
+    | .error k => [.err k]
+    | .finish => [.done]
+    | .result out => [.ok out.id false]
+  | .stream _ _ _ initErr turns _ =>
+    match initErr with
+    | some k => [.err k]
+    | none => plainTurns turns
+  | .release => []
+
+def optPtr : Option Wire → List (Nat × Nat)
+  | some w => wirePtr w
+  | none => []
+
+theorem wireOK_mono {segs segs' : Segs} {att : Option Nat} {b : B} {wire : Wire}
+    (h : WireOK segs att b wire) (hp : ∀ q ∈ wirePtr wire, ∀ b', Live segs q.1 q.2 b' → Live segs' q.1 q.2 b') :
+    WireOK segs' att b wire := by
+  cases wire with
+  | inline _ => exact h
+  | bad => exact h
+  | ptr k off len => exact ⟨h.1, h.2.1, hp (k, off) (by simp [wirePtr]) b h.2.2⟩
+
+/-- the head turn's input is on the wire, well-formed; no wire when there is no turn -/
+def HeadOK (segs : Segs) (shm : Option Nat) : List Turn → Option Wire → Prop
+  | t :: _, some w => WireOK segs shm t.input w
+  | [], none => True
+  | _, _ => False
+
+theorem sendNext_spec (shm : Option Nat) (segs : Segs) (turns : List Turn) (owned : List (Nat × Nat))
+    (hv : ∀ t ∈ turns, t.via.wellBehaved = true) (hI : SInv segs) (hA : Acc segs owned) :
+    ∃ segs' next, sendNext shm segs turns = (segs', next) ∧ segs'.n = segs.n ∧ SInv segs' ∧
+      HeadOK segs' shm turns next ∧ (∀ q ∈ optPtr next, ∀ b', ¬ Live segs q.1 q.2 b') ∧
+      (∀ k' o b', Live segs k' o b' → Live segs' k' o b') ∧ Acc segs' (optPtr next ++ owned) := by
+  cases turns with
+  | nil => exact ⟨segs, none, rfl, rfl, hI, trivial, by simp [optPtr], fun _ _ _ h => h, by simpa [optPtr] using hA⟩
+  | cons t rest =>
+    obtain ⟨segs', wire, h, hn, hI', hW, hf, hp, hA'⟩ :=
+      clientSend_spec segs shm t.input t.via owned (hv t (by simp)) hI hA
+    exact ⟨segs', some wire, by simp [sendNext, h], hn, hI', hW, hf, hp, hA'⟩
+
+/-- **runTurns_spec**: a lockstep stream with a well-behaved client answers exactly what the
+handlers answer, keeps the invariants, and leaves no slot behind except pointers the client holds. -/
+theorem runTurns_spec (shm : Option Nat) (hold : Bool) : ∀ (turns : List Turn) (segs : Segs) (held : Held)
+    (wire : Option Wire), (∀ t ∈ turns, t.via.wellBehaved = true) → SInv segs →
+    Acc segs (optPtr wire ++ held) → HeadOK segs shm turns wire →
+    ∃ segs' held' items, runTurns shm hold segs held turns wire = (segs', held', items) ∧
+      segs'.n = segs.n ∧ SInv segs' ∧ Acc segs' held' ∧ items.map Item.view = plainTurns turns
+  | [], segs, held, wire, _, hI, hA, hH => by
+    cases wire with
+    | some w => exact hH.elim
+    | none => exact ⟨segs, held, [], by simp [runTurns], rfl, hI, by simpa [optPtr] using hA, rfl⟩
+  | t :: rest, segs, held, wire, hv, hI, hA, hH => by
+    cases wire with
+    | none => exact hH.elim
+    | some w =>
+      obtain ⟨segs2, hst, hn2, hI2, hA2, _⟩ := serverTake_ok segs shm t.input w held hH hI hA
+      simp only [runTurns, hst]
+      cases ho : t.outcome with
+      | error k =>
+        exact ⟨segs2, held, _, rfl, hn2, hI2, hA2, by simp [plainTurns, ho, Item.view]⟩
+      | finish =>
+        exact ⟨segs2, held, _, rfl, hn2, hI2, hA2, by simp [plainTurns, ho, Item.view]⟩
+      | result out =>
+        simp only []
+        obtain ⟨segs3, rw, hmw, hn3, hI3, hW3, _, hA3⟩ := maybeWrite_spec segs2 shm out held hI2 hA2
+        obtain ⟨segs4, held', vs, hcr, hn4, hI4, hA4, _⟩ :=
+          clientRecv_ok segs3 held hold shm out rw [] hW3 hI3 (by simpa using hA3)
+        obtain ⟨segs5, next, hsn, hn5, hI5, hH5, _, _, hA5⟩ :=
+          sendNext_spec shm segs4 rest held' (fun t ht => hv t (by simp [ht])) hI4 (by simpa using hA4)
+        obtain ⟨segs6, held'', items, hrt, hn6, hI6, hA6, hv6⟩ :=
+          runTurns_spec shm hold rest segs5 held' next (fun t ht => hv t (by simp [ht])) hI5 hA5 hH5
+        simp only [hmw, hcr, hsn, hrt]
+        refine ⟨segs6, held'', _, rfl, by omega, hI6, hA6, ?_⟩
+        simp [plainTurns, ho, Item.view, hv6]
+
+/-- the wire of the head turn of a plain client -/
+def headWire : List Turn → Option Wire
+  | [] => none
+  | t :: _ => some (.inline t.input)
+
+theorem sendNext_plain (segs : Segs) (l : List Turn) :
+    sendNext none segs (l.map Turn.plain) = (segs, headWire l) := by
+  cases l <;> simp [sendNext, Turn.plain, clientSend, headWire]
+
+/-- the same turns issued by a client without shared memory, on any state of the world -/
+theorem runTurns_plain (hold : Bool) (segs : Segs) (held : Held) : ∀ (turns : List Turn),
+    runTurns none hold segs held (turns.map Turn.plain) (headWire turns) = (segs, held, plainTurns turns)
+  | [] => by simp [runTurns, headWire, plainTurns]
+  | t :: rest => by
+    have ih := runTurns_plain hold segs held rest
+    simp only [List.map_cons, headWire, runTurns, serverTake, plainTurns]
+    have hpo : (Turn.plain t).outcome = t.outcome := rfl
+    rw [hpo]
+    cases ho : t.outcome with
+    | error k => rfl
+    | finish => rfl
+    | result out =>
+      simp only [maybeWrite, clientRecv, sendNext_plain, ih]
+
+theorem releaseAll_spec : ∀ (held : Held) (segs : Segs) (owned : List (Nat × Nat)), SInv segs →
+    Acc segs (held ++ owned) →
+    (releaseAll segs held).n = segs.n ∧ SInv (releaseAll segs held) ∧ Acc (releaseAll segs held) owned
+  | [], segs, owned, hI, hA => ⟨rfl, hI, by simpa [releaseAll] using hA⟩
+  | (k, off) :: r, segs, owned, hI, hA => by
+    obtain ⟨f1, _, f3⟩ := freeAt_spec segs k off hI
+    have hA' : Acc (updateAt segs k (segFree · off)) (r ++ owned) := by
+      apply f3 _ _ hA
+      intro q hq hne
+      simp at hq
+      rcases hq with hq | hq | hq
+      · exact absurd hq hne
+      · simp [hq]
+      · simp [hq]
+    have := releaseAll_spec r _ owned f1 hA'
+    simpa [releaseAll] using this
+
+
+theorem serveShm_ok (segs : Segs) (cached : Option Nat) (adv : Adv) (b : B) (wire : Wire) (owned : List (Nat × Nat))
+    (hW : WireOK segs (ensure cached adv).1 b wire) (hI : SInv segs) (hA : Acc segs (wirePtr wire ++ owned)) :
+    ∃ segs', serveShm segs cached adv wire = (segs', (ensure cached adv).2, some (b, engaged cached adv wire)) ∧
+      segs'.n = segs.n ∧ SInv segs' ∧ Acc segs' owned ∧
+      (∀ k' o b', Live segs k' o b' → (k', o) ∉ wirePtr wire → Live segs' k' o b') := by
+  obtain ⟨segs', h, hn, hI', hA', hp⟩ := serverTake_ok segs _ b wire owned hW hI hA
+  refine ⟨segs', ?_, hn, hI', hA', hp⟩
+  unfold serveShm
+  cases he : ensure cached adv with
+  | mk seg c' =>
+    rw [he] at h
+    simp only [] at h ⊢
+    rw [h]
+
+/-- **runCall_spec**: one call of a well-behaved client answers exactly what the handlers answer
+and keeps the invariants; no slot is left that the client does not hold a pointer to. -/
+theorem runCall_spec (w : World) (c : Call) (hwb : c.wellBehaved = true) (hI : SInv w.segs)
+    (hA : Acc w.segs w.held) :
+    (runCall w c).1.segs.n = w.segs.n ∧ SInv (runCall w c).1.segs ∧
+    Acc (runCall w c).1.segs (runCall w c).1.held ∧ (runCall w c).2.map Item.view = plainItems c := by
+  cases c with
+  | release =>
+    obtain ⟨h1, h2, h3⟩ := releaseAll_spec w.held w.segs [] hI (by simpa using hA)
+    exact ⟨h1, h2, h3, rfl⟩
+  | unary adv param via outcome hold =>
+    simp only [Call.wellBehaved] at hwb
+    obtain ⟨segs1, wire, hcs, hn1, hI1, hW1, _, _, hA1⟩ :=
+      clientSend_spec w.segs (ensure w.cached adv).1 param via w.held hwb hI hA
+    obtain ⟨segs2, hss, hn2, hI2, hA2, _⟩ := serveShm_ok segs1 w.cached adv param wire w.held hW1 hI1 hA1
+    simp only [runCall, hcs, hss]
+    cases outcome with
+    | error k => exact ⟨by first | omega | (simp only []; omega) | (simp; omega), hI2, hA2, by simp [plainItems, Item.view]⟩
+    | finish => exact ⟨by first | omega | (simp only []; omega) | (simp; omega), hI2, hA2, by simp [plainItems, Item.view]⟩
+    | result out =>
+      simp only []
+      obtain ⟨segs3, rw, hmw, hn3, hI3, hW3, _, hA3⟩ :=
+        maybeWrite_spec segs2 (engaged w.cached adv wire) out w.held hI2 hA2
+      obtain ⟨segs4, held', vs, hcr, hn4, hI4, hA4, _⟩ :=
+        clientRecv_ok segs3 w.held hold _ out rw [] hW3 hI3 (by simpa using hA3)
+      simp only [hmw, hcr]
+      exact ⟨by first | omega | (simp only []; omega) | (simp; omega), hI4, by simpa using hA4, by simp [plainItems, Item.view]⟩
+  | stream adv param via initErr turns hold =>
+    simp only [Call.wellBehaved, Bool.and_eq_true, List.all_eq_true] at hwb
+    obtain ⟨segs1, wire, hcs, hn1, hI1, hW1, _, _, hA1⟩ :=
+      clientSend_spec w.segs (ensure w.cached adv).1 param via w.held hwb.1 hI hA
+    obtain ⟨segs1', first, hsn, hn1', hI1', hH1, hfresh, hpres, hA1'⟩ :=
+      sendNext_spec (engaged w.cached adv wire) segs1 turns (wirePtr wire ++ w.held) hwb.2 hI1 hA1
+    have hW1' : WireOK segs1' (ensure w.cached adv).1 param wire :=
+      wireOK_mono hW1 (fun q _ b' h => hpres _ _ _ h)
+    have hA1'' : Acc segs1' (wirePtr wire ++ (optPtr first ++ w.held)) := by
+      apply acc_mono hA1'
+      intro q hq; simp at hq ⊢; rcases hq with h | h | h <;> simp [h]
+    obtain ⟨segs2, hss, hn2, hI2, hA2, hp2⟩ :=
+      serveShm_ok segs1' w.cached adv param wire (optPtr first ++ w.held) hW1' hI1' hA1''
+    -- the first input, sent before the server read the request, is still intact
+    have hH2 : HeadOK segs2 (engaged w.cached adv wire) turns first := by
+      cases turns with
+      | nil => cases first <;> exact hH1
+      | cons t rest =>
+        cases first with
+        | none => exact hH1
+        | some fw =>
+          apply wireOK_mono hH1
+          intro q hq b' hl
+          apply hp2 _ _ _ hl
+          intro hmem
+          -- q is the pointer of the request wire, which was live when `fw` was allocated fresh
+          cases wire with
+          | inline _ => simp [wirePtr] at hmem
+          | bad => simp [wirePtr] at hmem
+          | ptr k off len =>
+            simp [wirePtr] at hmem
+            have hlive : Live segs1 k off param := hW1.2.2
+            have := hfresh q (by simpa [optPtr] using hq) param
+            apply this
+            rw [show q = (k, off) from Prod.ext hmem.1 hmem.2]
+            exact hlive
+    simp only [runCall, hcs, hsn, hss]
+    cases initErr with
+    | some kind =>
+      simp only []
+      -- the client takes back the input it had already sent
+      have : SInv (reclaimOpt segs2 first) ∧ Acc (reclaimOpt segs2 first) w.held ∧
+          (reclaimOpt segs2 first).n = segs2.n := by
+        cases first with
+        | none => exact ⟨hI2, by simpa [optPtr, reclaimOpt] using hA2, rfl⟩
+        | some fw =>
+          cases fw with
+          | inline _ => exact ⟨hI2, by simpa [optPtr, wirePtr, reclaimOpt, clientReclaim] using hA2, rfl⟩
+          | bad => exact ⟨hI2, by simpa [optPtr, wirePtr, reclaimOpt, clientReclaim] using hA2, rfl⟩
+          | ptr k off len =>
+            obtain ⟨f1, _, f3⟩ := freeAt_spec segs2 k off hI2
+            refine ⟨f1, ?_, rfl⟩
+            apply f3 _ _ hA2
+            intro q hq hne
+            simp [optPtr, wirePtr] at hq
+            rcases hq with hq | hq
+            · exact absurd hq hne
+            · exact hq
+      exact ⟨by first | omega | (simp only []; omega) | (simp; omega), this.1, this.2.1, by simp [plainItems, Item.view]⟩
+    | none =>
+      simp only []
+      obtain ⟨segs3, held', items, hrt, hn3, hI3, hA3, hv3⟩ :=
+        runTurns_spec (engaged w.cached adv wire) hold turns segs2 w.held first hwb.2 hI2 hA2 hH2
+      simp only [hrt]
+      exact ⟨by first | omega | (simp only []; omega) | (simp; omega), hI3, hA3, by simpa [plainItems] using hv3⟩
+
+theorem engaged_plain (c : Option Nat) (b : B) : engaged c .none (.inline b) = none := by
+  cases c <;> simp [engaged, ensure, Adv.hasName, Wire.isPtr]
+
+theorem serveShm_plain (segs : Segs) (c : Option Nat) (b : B) :
+    serveShm segs c .none (.inline b) = (segs, c, some (b, none)) := by
+  simp [serveShm, ensure, serverTake, engaged_plain]
+
+/-- the same call issued by a client without shared memory: same answers, world untouched -/
+theorem runCall_plain (w : World) (c : Call) :
+    runCall w c.plain = (match c with | .release => { w with segs := releaseAll w.segs w.held, held := [] } | _ => w,
+      plainItems c) := by
+  cases c with
+  | release => rfl
+  | unary adv param via outcome hold =>
+    simp only [Call.plain, runCall, clientSend, serveShm_plain]
+    cases outcome with
+    | error k => rfl
+    | finish => rfl
+    | result out => simp [maybeWrite, clientRecv, plainItems]
+  | stream adv param via initErr turns hold =>
+    simp only [Call.plain, runCall, clientSend, engaged_plain, sendNext_plain, serveShm_plain]
+    cases initErr with
+    | some kind =>
+      simp only [plainItems]
+      cases turns <;> simp [headWire, reclaimOpt, clientReclaim]
+    | none =>
+      simp only [plainItems, runTurns_plain]
+
+
 end Vgi.Proofs.ShmSession
